@@ -2,6 +2,8 @@
   C04 — multi-lock acquisition is all-or-nothing and covers exactly the leaf locks.
 -/
 import HLV.Props.HoldFamily
+import HLV.Logic.SoloAcq
+import HLV.Props.C13
 namespace HLV
 
 -- @theorem C04_footprint_is_the_leaves_each_once : for every lockable shape (any kinds, sizes, arrangement, nesting) the set of holds its acquisition obtains is a permutation of the declared leaves, each once, mutexes exclusively
@@ -39,5 +41,32 @@ theorem C04_try_and_nonacquiring_calls_never_block (n : Nat) (ro : RankOpt) (C :
     (ha : Admissible (HoldSpec n ro) {} tr₁) :
     (ghostAfter (HoldSpec n ro) {} tr₁).depth = 0 :=
   (program_op_ok n ro C prog hok u hp ha).1
+
+-- @theorem C04_blocking_lock_returns_iff_all_leaves_available_solo : deterministic reading (thread alone, other threads' holds frozen, quiescent table): the blocking lock/read of a leaf, of a sorting or owned collection or a wrapper around one (any size, arrangement, nesting) RETURNS — with exactly its declared leaves taken on top of the table — if every declared leaf is free for the requested hold; otherwise it does not return: the thread ends up waiting, holding a proper prefix (in acquisition order) of the footprint and nothing else, the table otherwise untouched
+theorem C04_blocking_lock_returns_iff_all_leaves_available_solo (pol : Policy) (t : Tid) (W : World)
+    (S : Shape) (hS : inOrder S = true) (m : Mode) (e : Env) (hnd : (declLeaves S).Nodup) (hq : Quiescent e) :
+    ((holdsOf S m).all (freeFor e) = true →
+      solo pol t ((toRaw W S).acq m) e = .done () (takeAll t (shapeFp W S m) e)) ∧
+    ((holdsOf S m).all (freeFor e) = false →
+      ∃ pre e', pre <+: shapeFp W S m ∧ pre.length < (shapeFp W S m).length ∧
+        solo pol t ((toRaw W S).acq m) e = .stuck e' ∧ SameHolds (takeAll t pre e) e') := by
+  have hl := lockable_of_inOrder S hS
+  have hn := shapeFp_ids_nodup W S m hl hnd
+  have hw := quiescent_notWaiting t e hq
+  have hd := toRaw_detAcq (pol := pol) (t := t) W S hS
+  have hiff : (holdsOf S m).all (freeFor e) = true ↔ ∀ p ∈ shapeFp W S m, avail pol e p = true := by
+    rw [List.all_eq_true]
+    constructor
+    · intro h p hp
+      rw [avail_quiescent pol e hq]
+      exact h p ((shapeFp_perm W m S hl).mem_iff.1 hp)
+    · intro h p hp
+      rw [← avail_quiescent pol e hq]
+      exact h p ((shapeFp_perm W m S hl).mem_iff.2 hp)
+  refine ⟨fun h => hd.acq_ok m e hw hn (hiff.1 h), fun h => ?_⟩
+  have hnall : ¬ ∀ p ∈ shapeFp W S m, avail pol e p = true := by
+    intro h'; rw [hiff.2 h'] at h; cases h
+  obtain ⟨pre, e', h1, h2, _, h4, h5⟩ := hd.acq_stuck m e hw hn (fun p _ => (hq p.1).2) hnall
+  exact ⟨pre, e', h1, h2, h4, h5⟩
 
 end HLV
